@@ -181,6 +181,14 @@ func init() {
 		s.Config.PauseTimeout = 0
 		return s
 	})
+	// a writer stuck on a peer that stopped reading, no PauseTimeout: only the
+	// closing call can release it, and Disconnect has to do so when its quit fires
+	register("shutdown5", func() *Scenario {
+		s := mkShutdown([]ActorSpec{{Name: "X", Ops: []Op{{Kind: "disc", Quit: quitLater}}}}, false)()
+		s.Config.PauseTimeout = 0
+		s.Faults = Faults{WriteBlock: true}
+		return s
+	})
 	register("shutdown3", mkShutdown([]ActorSpec{{Name: "X", Ops: []Op{{Kind: "disc", Quit: quitLater}}}, {Name: "Y", Ops: []Op{{Kind: "disc", Quit: quitClosed}}}, {Name: "Z", Ops: []Op{{Kind: "close"}}}}, true))
 }
 
